@@ -125,6 +125,42 @@ theorem matches_requested (classify : Bytes → Option GName) (offset expiry : I
   rw [List.any_eq_true]
   exact ⟨g, by simpa [dummyCert] using hmem, specMatchOne_refl g ref href⟩
 
+private theorem osslMatchDns_refl (v : Bytes) (hv : v ≠ []) : osslMatchDns v v = true := by
+  unfold osslMatchDns
+  split
+  · rename_i hs
+    unfold validStar at hs
+    split at hs
+    · rename_i a b t
+      simp only [Bool.and_eq_true, decide_eq_true_eq] at hs
+      obtain ⟨⟨ha, _⟩, _⟩ := hs
+      subst ha
+      simp [osslWild]
+    · simp at hs
+  · cases v with
+    | nil => exact absurd rfl hv
+    | cons a t => simp
+
+/-- The same under the transcription of OpenSSL's own host check (`osslMatches`, C15): a client that verifies with
+    X509_check_host / X509_check_ip accepts the leaf's SAN list for the non-empty name it asked for — including a
+    wildcard-looking SNI, which OpenSSL matches literally. -/
+theorem matches_requested_openssl (classify : Bytes → Option GName) (offset expiry : Int) (caHasSki : Bool) (now : Int)
+    (r : Req) (p : C16.Plan) (h : leaf classify offset expiry caHasSki now r = some p)
+    (g : GName) (hg : classify (requested r) = some g) (ref : RefId) (href : refOf g = some ref) (hne : gText g ≠ []) :
+    osslMatches p.sans ref = true := by
+  unfold leaf at h
+  simp only [Option.map_eq_some_iff] at h
+  obtain ⟨n, hn, rfl⟩ := h
+  obtain ⟨g', hg', hmem, _⟩ := sni_or_local_first_class classify r n hn
+  rw [hg] at hg'; injection hg' with hg'; subst hg'
+  unfold osslMatches
+  rw [List.any_eq_true]
+  refine ⟨g, by simpa [dummyCert] using hmem, ?_⟩
+  cases g with
+  | dns v => simp [refOf] at href; subst href; simpa [osslMatchOne] using osslMatchDns_refl v (by simpa [gText] using hne)
+  | ip v => simp [refOf] at href; subst href; simp [osslMatchOne]
+  | other k v => simp [refOf] at href
+
 /-- No exception leaves `get_cert` because of the upstream certificate: if the requested name and the server
     address classify, names are produced whatever the upstream CN / SANs / organization / CRL are. -/
 theorem upstream_never_blocks (classify : Bytes → Option GName) (r : Req) (g : GName)
@@ -143,6 +179,50 @@ theorem upstream_never_blocks (classify : Bytes → Option GName) (r : Req) (g :
   obtain ⟨al, hal⟩ := this
   simp [hreq, hal]
 
+/-- Conversely nothing is dropped: every source name — each upstream SAN and CN, the requested identity, the server address — is a
+    subjectAltName entry of the leaf (with `names_subset_sources`: the SAN set IS the source set; e.g. a host name below an
+    upstream wildcard is kept although the wildcard "covers" it). -/
+theorem sources_all_named (classify : Bytes → Option GName) (r : Req) (n : Names)
+    (h : getNames classify r = some n) : ∀ g ∈ sources classify r, g ∈ n.sans := by
+  obtain ⟨g0, al, hg, hal, rfl⟩ := getNames_some h
+  intro g hgm
+  simp only [mkNames]
+  rw [mem_dedup]
+  unfold sources at hgm
+  simp only [List.mem_append, List.mem_cons] at hgm ⊢
+  rcases hgm with (hgm | hgm) | hgm
+  · exact Or.inl hgm
+  · rw [hg] at hgm; simp at hgm; exact Or.inr (Or.inl hgm)
+  · right; right
+    unfold addrNames at hal
+    cases ha : r.addr with
+    | none => simp [ha] at hgm
+    | some a =>
+      simp only [ha] at hal hgm
+      cases hc : classify a with
+      | none => simp [hc] at hal
+      | some y => simp [hc] at hal hgm; subst hal; simp [hgm]
+
+private theorem dedup_sublist (l : List GName) : (dedup l).Sublist l := by
+  induction l with
+  | nil => simp [dedup]
+  | cons x xs ih =>
+    simp only [dedup]
+    exact (List.Sublist.cons₂ x (List.filter_sublist.trans ih))
+
+/-- Order: the SAN list is the source list (upstream names, then the requested identity, then the server address) with later
+    repetitions removed — a subsequence of it, first occurrences kept. -/
+theorem sans_in_source_order (classify : Bytes → Option GName) (r : Req) (n : Names)
+    (h : getNames classify r = some n) :
+    ∃ g al, classify (requested r) = some g ∧ addrNames classify r = some al
+      ∧ n.sans.Sublist (upList classify r ++ g :: al) ∧ n.sans.head? = (upList classify r ++ g :: al).head? := by
+  obtain ⟨g, al, hg, hal, rfl⟩ := getNames_some h
+  refine ⟨g, al, hg, hal, dedup_sublist _, ?_⟩
+  simp only [mkNames]
+  cases hu : upList classify r ++ g :: al with
+  | nil => simp at hu
+  | cons x xs => simp [dedup]
+
 /-! ### the field plan of `dummy_cert` -/
 
 /-- At the moment of issue (and for as long as the expiry says) the certificate is inside its validity window, even though
@@ -152,6 +232,16 @@ theorem valid_at_issue (caHasSki : Bool) (utcNow skew : Int) (n : Names)
     (hskew : -Gen.C16.maxZoneSkew ≤ skew ∧ skew ≤ Gen.C16.maxZoneSkew) :
     let p := dummyCert Gen.C16.validityOffset Gen.C16.certExpiry caHasSki (utcNow + skew) n
     p.notBefore < utcNow ∧ utcNow < p.notAfter ∧ p.notAfter - p.notBefore = Gen.C16.certExpiry := by
+  simp only [dummyCert, Gen.C16.validityOffset, Gen.C16.certExpiry, Gen.C16.maxZoneSkew] at *
+  omega
+
+/-- The window does not only contain the moment of issue: the certificate stays valid for every instant from issue until
+    `certExpiry − 2 days − 14 h` later, whatever the clock's time zone. -/
+theorem valid_throughout (caHasSki : Bool) (utcNow skew t : Int) (n : Names)
+    (hskew : -Gen.C16.maxZoneSkew ≤ skew ∧ skew ≤ Gen.C16.maxZoneSkew)
+    (ht : utcNow ≤ t ∧ t < utcNow + Gen.C16.certExpiry + Gen.C16.validityOffset - Gen.C16.maxZoneSkew) :
+    let p := dummyCert Gen.C16.validityOffset Gen.C16.certExpiry caHasSki (utcNow + skew) n
+    p.notBefore < t ∧ t < p.notAfter := by
   simp only [dummyCert, Gen.C16.validityOffset, Gen.C16.certExpiry, Gen.C16.maxZoneSkew] at *
   omega
 
